@@ -669,7 +669,9 @@ theorem deleteInst_frame_spec {i : Inst} {st st' : State} (h : deleteInst i st =
 
 theorem relate_nextId (sch : MSchema) (s : MState) (x y : Nat) (r p : String) :
     (Pyx.Meta.relate sch s x y r p).1.nextId = s.nextId := by
-  unfold Pyx.Meta.relate; split <;> rfl
+  unfold Pyx.Meta.relate; split
+  · rfl
+  · split <;> rfl
 
 theorem unrelate_nextId (sch : MSchema) (s : MState) (x y : Nat) (r p : String) :
     (Pyx.Meta.unrelate sch s x y r p).1.nextId = s.nextId := by
@@ -781,8 +783,8 @@ theorem stepA_refines (hk : Function.Injective kname) (kinds : List Nat) (hok : 
       simp only [specStepA, specStep, mStepA, h1]
       exact h2
     | relate x y r p =>
-      have hop' : Pyx.Meta.live s x ∧ Pyx.Meta.live s y := hop
-      have h := relate_refines hk kinds sch R.store A hop'.1 hop'.2 r p
+      have hop' : x < s.count ∧ y < s.count := hop
+      have h := relate_refines' hk kinds sch R.store A hop'.1 hop'.2 r p
       simp only [specStepA, specStep, mStepA, Pyx.Meta.step]
       rw [relate_assocs hass]
       by_cases hc : (Pyx.Meta.relate sch s x y r p).2 = .ok
@@ -842,7 +844,7 @@ theorem allInv_stepA (hok : Pyx.Meta.SchemaOk sch) (kinds : List Nat) (A : Pyx.M
   cases op with
   | store op =>
     rw [mStepA_store_fst]
-    exact Pyx.Meta.step_allInv hok A op (opOk_of_opOk' (opOk'_of_opOkA hop))
+    exact Pyx.Meta.step_allInv' hok A op
   | set x name v =>
     obtain ⟨hx, hkin, a, hfa, hcase⟩ := hop
     rcases hcase with ⟨hr, hform⟩ | ⟨hnr, hpl, hty⟩ | ⟨hnr, hform, hid, hty, i, rfl, hi⟩
